@@ -558,6 +558,9 @@ pub fn stress(input: &str, out: &mut impl std::io::Write) {
     let ops: usize = t[4].parse().unwrap();
     let seed: u64 = t[5].parse().unwrap();
     let limit: u32 = t[6].parse().unwrap_or(3);
+    if t.get(7) == Some(&"race") {
+        return race(t[1], f, threads, ops, out);
+    }
     writeln!(out, "CCASE {} f{} {} stress -", t[1], f, corpus::flavour(f)).unwrap();
     // register and warm up on this thread
     let v0 = |x: u32| ((f as u64) * 37 + (x as u64) * 11) % 500 + 1;
@@ -641,5 +644,72 @@ pub fn stress(input: &str, out: &mut impl std::io::Write) {
     let q: Vec<String> = snap.queue.iter().map(|k| k.to_string()).collect();
     let st: Vec<String> = snap.store.iter().map(|(k, e, fr, _)| format!("{}:{}:{}", k, e, fr)).collect();
     writeln!(out, "W {} | {} | {}", f, if q.is_empty() { "-".into() } else { q.join(",") }, if st.is_empty() { "-".into() } else { st.join(";") }).unwrap();
+    writeln!(out, "END").unwrap();
+}
+
+/// `race` (a STRESS line ending in `race`): first-call races on a function WITHOUT limit, ttl, memory
+/// bound, predicates or invalidation. For each of `keys` fresh keys all threads start together (spin
+/// barrier), call f(k) — they may all miss and all store, each later store REPLACING the entry — and
+/// at once call f(k) again. A thread's second call starts after its own first call has stored the
+/// result and returned, so it must be served: a thread that runs the body twice for one key saw the
+/// key absent while another thread was replacing it.
+fn race(id: &str, f: usize, threads: usize, keys: usize, out: &mut impl std::io::Write) {
+    use std::sync::atomic::{AtomicUsize, Ordering::SeqCst};
+    writeln!(out, "CCASE {} f{} {} race -", id, f, corpus::flavour(f)).unwrap();
+    let _ = do_call(f, 0, rt::Script { ok: true, v: ((f as u64) * 37) % 500 + 1, len: 8, inv: false, cif: true });
+    let arrived = Arc::new(AtomicUsize::new(0));
+    let bad = Arc::new(Mutex::new(Vec::<String>::new()));
+    let twice = Arc::new(AtomicUsize::new(0));
+    let mut hs = Vec::new();
+    for th in 0..threads {
+        let (arrived, bad, twice) = (arrived.clone(), bad.clone(), twice.clone());
+        hs.push(std::thread::spawn(move || {
+            for k in 0..keys {
+                let x = 100 + k as u32;
+                let want = ((f as u64) * 37 + (x as u64) * 11) % 500 + 1;
+                // all threads leave the barrier of round k together
+                arrived.fetch_add(1, SeqCst);
+                let t0 = Instant::now();
+                while arrived.load(SeqCst) < (k + 1) * threads {
+                    if t0.elapsed() > Duration::from_secs(20) {
+                        return;
+                    }
+                    std::hint::spin_loop();
+                }
+                let mut execs = 0;
+                for _ in 0..3 {
+                    let r = do_call(f, x, rt::Script { ok: true, v: want, len: 8, inv: false, cif: true });
+                    if r.panic.is_some() || r.enc != 2 * want {
+                        bad.lock().unwrap().push(format!("VALUE call f{} x={} returned enc {} (panic {:?}), the function's value is {}", f, x, r.enc, r.panic, want));
+                    }
+                    execs += r.executed;
+                }
+                if execs > 1 {
+                    twice.fetch_add(1, SeqCst);
+                    let mut b = bad.lock().unwrap();
+                    if b.len() < 3 {
+                        b.push(format!("MISS f{}: thread {} ran the body {} times for x={}: a call that started after the thread's own call had stored the result and returned was not served (first-call race of {} threads)", f, th, execs, x, threads));
+                    }
+                }
+            }
+        }));
+    }
+    let dl = Instant::now() + Duration::from_secs(60);
+    while hs.iter().any(|h| !h.is_finished()) && Instant::now() < dl {
+        std::thread::sleep(Duration::from_millis(5));
+    }
+    if hs.iter().any(|h| !h.is_finished()) {
+        writeln!(out, "X hung threads of the race never finished").unwrap();
+        writeln!(out, "END").unwrap();
+        out.flush().unwrap();
+        std::process::exit(0);
+    }
+    for h in hs {
+        let _ = h.join();
+    }
+    for b in bad.lock().unwrap().iter().take(4) {
+        writeln!(out, "BAD {}", b).unwrap();
+    }
+    writeln!(out, "SCHED reached=1 b_blocked=0 deadlock=0 race=1 keys={} threads={} reruns={}", keys, threads, twice.load(SeqCst)).unwrap();
     writeln!(out, "END").unwrap();
 }
